@@ -284,6 +284,7 @@ KINDS = [
     "{'a': 1, 2: 3}", "{1u: 'x', 2: 'y', true: 'z'}", "{'k': [1, 'a'], 'm': {1: null}}", "timestamp('2009-02-13T23:31:30Z')", "duration('3601s')", "int", "type(null)",
     "x", "nope", "hm", "hl", "9223372036854775807", "(-9223372036854775807 - 1)", "18446744073709551615u", "1e308", "dyn(1)", "dyn('a')",
     "(1.0 / 0.0)", "(0.0 / 0.0)", "(-1.0 / 0.0)", "(-0.0)", "5e-324",
+    "'US$ ${n} $$ {0} %s'", "b'$x ${left}'",
 ]
 BINOPS = ["+", "-", "*", "/", "%", "==", "!=", "<", "<=", ">", ">=", "in", "&&", "||"]
 SWEEP_ENV = {
